@@ -4,7 +4,7 @@
    reference semantics Rfc6902.rfc_apply, for ALL documents and ALL operation sequences in the
    property's stated domain, with SupportNegativeIndices on or off.  The model is tied to the Go
    code by the correspondence run (see evidence). *)
-From JP Require Import Bytes Json Text Strings Den Pointer Rfc6902 ImplV5 Domain JsonFacts Abs EqualFacts ImplFacts RefFacts ApplyFacts Codec StrInv ApplySim PointerDomain.
+From JP Require Import Bytes Json Text Strings Den Pointer Rfc6902 ImplV5 Domain JsonFacts Abs EqualFacts ImplFacts RefFacts ApplyFacts Codec StrInv Depth ApplySim PointerDomain.
 
 (* Apply on bytes.  Hypotheses = the property's domain: root object/array without duplicate names
    (tnodup), operations in op_dom (pointers "" or /tok/.../tok with non-empty tokens whose numeric
@@ -14,12 +14,19 @@ From JP Require Import Bytes Json Text Strings Den Pointer Rfc6902 ImplV5 Domain
    conditions hold of EVERY decoded patch (C01_decoded_strings below): pointers are decoded strings,
    values are parsed texts.  Patches that contain a copy are covered like all others: the codec
    round trip of deepCopy is proved (StrInv.codec_thm) from the string invariant carried by ngood.
+   copies_fit (Depth.v): no copy operation that the reference run reaches has a source value nested
+   deeper than 10000 levels (Text.max_depth, the decoder's limit): deepCopy refuses such a value
+   (fix dc05ac4; before it, the copy was stored raw and a later lazy parse panicked).  The condition
+   follows the reference run; it holds for every patch without copy (copies_fit_no_copy_ops) and
+   whenever the documents the run passes through are themselves at most 10000 deep
+   (Depth.copy_fits_shallow).  What happens when it fails: C01_copy_too_deep_is_an_error below.
    Conclusion: Apply succeeds exactly when the reference does; then the output encodes a node
    whose value IS the reference result (so, a fortiori, structurally equal); a failure is reported
    at the same operation index. *)
 Theorem C01_apply_refines_rfc : forall o indent p doc t,
   plain_opts o -> parse doc = Some t -> root_container t = true -> tnodup t = true ->
   Forall op_dom p ->
+  copies_fit (dia o) (den t) (map den_op p) = true ->
   match rfc_apply (dia o) (den t) (map den_op p) with
   | Done j => exists n, api_apply o indent p doc = ROut (output o indent (render (o_esc o) n)) /\ aval n = j /\ ngood n
   | Failed i cz => exists e, api_apply o indent p doc = RErr (Some i) e /\ cause_rel cz e
@@ -48,6 +55,7 @@ Theorem C01_apply_refines_rfc_decoded : forall o indent patch p doc t,
   plain_opts o ->
   api_decode patch = Some p -> in_domain_C01 p = true -> forallb op_small p = true ->
   parse doc = Some t -> root_container t = true -> tnodup t = true ->
+  copies_fit (dia o) (den t) (map den_op p) = true ->
   match rfc_apply (dia o) (den t) (map den_op p) with
   | Done j => exists n, api_apply o indent p doc = ROut (output o indent (render (o_esc o) n)) /\ aval n = j /\ ngood n
   | Failed i cz => exists e, api_apply o indent p doc = RErr (Some i) e /\ cause_rel cz e
@@ -58,12 +66,55 @@ Print Assumptions C01_apply_refines_rfc_decoded.
 (* one operation on any reachable state, whatever lazy parsing earlier operations left behind *)
 Theorem C01_step_refines_rfc : forall o st op,
   sgood st -> plain_opts o -> op_dom op ->
+  copy_fits (dia o) (sval st) (den_op op) = true ->
   match rfc_step (dia o) (sval st) (den_op op) with
   | Rfc6902.Ok j' => exists st', step o st op = Ok st' /\ sval st' = j' /\ sgood st'
   | Rfc6902.Fail cz => exists e, step o st op = Err e /\ cause_rel cz e
   end.
 Proof. exact step_sim. Qed.
 Print Assumptions C01_step_refines_rfc.
+
+(* the complementary case: the operation is a copy whose source resolves (in the reference) to a
+   value nested deeper than the decoder's limit.  The library then reports deepCopy's error — for
+   every option setting (the depth check precedes the size limit) — unless the destination parent
+   is unreachable, which copy() checks first and the reference reports too.  Never a success,
+   never a panic. *)
+Theorem C01_copy_too_deep_is_an_error : forall o st op,
+  sgood st -> op_dom op ->
+  copy_fits (dia o) (sval st) (den_op op) = false ->
+  step o st op = Err EInvalid \/
+  (step o st op = Err EMissing /\ rfc_step (dia o) (sval st) (den_op op) = Rfc6902.Fail FUnreachable).
+Proof. exact step_copy_too_deep. Qed.
+Print Assumptions C01_copy_too_deep_is_an_error.
+
+(* the same for whole patches on bytes: the patch is rejected, at the copy that does not fit *)
+Theorem C01_copy_too_deep_rejects_patch : forall o indent p doc t,
+  plain_opts o -> parse doc = Some t -> root_container t = true -> tnodup t = true ->
+  Forall op_dom p ->
+  copies_fit (dia o) (den t) (map den_op p) = false ->
+  match rfc_apply (dia o) (den t) (map den_op p) with
+  | Done _ => exists j, api_apply o indent p doc = RErr (Some j) EInvalid
+  | Failed k cz => exists j e, api_apply o indent p doc = RErr (Some j) e /\ (e = EInvalid \/ (j = k /\ cause_rel cz e))
+  end.
+Proof. exact api_apply_copy_too_deep. Qed.
+Print Assumptions C01_copy_too_deep_rejects_patch.
+
+(* the check the model makes (on the re-encoded text) is a check of the VALUE copied: copy_fits and
+   copies_fit speak about exactly what deepCopy measures *)
+Theorem C01_depth_check_is_value_depth : forall o v,
+  nwf v -> copy_too_deep o v = (max_depth <? odepth (aval v))%N.
+Proof. exact copy_too_deep_val. Qed.
+Print Assumptions C01_depth_check_is_value_depth.
+
+(* sufficient conditions for the side condition *)
+Theorem C01_no_copy_fits : forall d p doc,
+  Forall (fun op => op_kind op <> KCopy) p -> copies_fit d doc (map den_op p) = true.
+Proof. exact copies_fit_no_copy_ops. Qed.
+Print Assumptions C01_no_copy_fits.
+
+Theorem C01_shallow_document_fits : forall d doc o, (odepth doc <= max_depth)%N -> copy_fits d doc o = true.
+Proof. exact copy_fits_shallow. Qed.
+Print Assumptions C01_shallow_document_fits.
 
 (* the pointer walk: findObject reaches exactly the container the reference descends to, and lazy
    parsing along the way never changes the document's value *)
@@ -139,3 +190,30 @@ Proof.
       (pose proof E as E'; vm_compute in E'; inversion E'; subst p; vm_compute; reflexivity).
   - vm_compute in E. inversion E; subst p. eexists. split; [right; right; left; reflexivity | vm_compute; reflexivity].
 Qed.
+
+(* ... and its copy fits: the side condition copies_fit holds on that patch and document *)
+Example C01_nonvacuous_copies_fit :
+  match api_decode (B "[{""op"":""add"",""path"":""/a/-"",""value"":null},{""op"":""test"",""path"":""/a/-1"",""value"":null},{""op"":""copy"",""from"":""/a"",""path"":""/x~1y""},{""op"":""move"",""from"":""/a/0"",""path"":""/a/1""},{""op"":""replace"",""path"":""/x~1y/0"",""value"":{""k"":1.0}},{""op"":""remove"",""path"":""/b""},{""op"":""test"",""path"":""/a"",""value"":[2,1,null]}]"),
+        parse (B "{""a"":[1,2],""b"":0}") with
+  | Some p, Some t => copies_fit (dia (mkOpts true 0 false false true [] None)) (den t) (map den_op p) = true
+  | _, _ => False
+  end.
+Proof. vm_compute. reflexivity. Qed.
+
+(* the complementary case fires: a state whose member a holds a value nested 10001 deep (such a value
+   cannot be parsed in one piece; it arises from adds into a deep document); copying it is refused *)
+Fixpoint nest (n : nat) : tjson := match n with O => TNull | S k => TArr [nest k] end.
+
+Example C01_copy_too_deep_fires :
+  match api_decode (B "[{""op"":""copy"",""from"":""/a"",""path"":""/b""}]") with
+  | Some [op] =>
+      let o := mkOpts false 0 false false true [] None in
+      let st := mkState (RCon (KDoc NNil [B "a"] [(B "a", NRaw (nest (N.to_nat 10001)))])) 0 in
+      copy_fits (dia o) (sval st) (den_op op) = false /\ step o st op = Err EInvalid /\
+      (* one level less: it fits and the copy is made *)
+      let st' := mkState (RCon (KDoc NNil [B "a"] [(B "a", NRaw (nest (N.to_nat 10000)))])) 0 in
+      copy_fits (dia o) (sval st') (den_op op) = true /\
+      match step o st' op with Ok _ => True | _ => False end
+  | _ => False
+  end.
+Proof. vm_compute. repeat split; reflexivity. Qed.
